@@ -50,6 +50,10 @@ def convert(nodes, form):
         return np.array(nodes)
     if form == 'dictkeys':
         return {u: 1 for u in nodes}.keys()
+    if form == 'iter':
+        return iter(list(nodes))
+    if form == 'generator':
+        return (u for u in list(nodes))
     raise ValueError(form)
 
 
@@ -172,6 +176,8 @@ def ic_case(draw):
     R0forms = ['list', 'tuple', 'set', 'frozenset']
     if len(case['R0']) == 1 and sim in SINGLE_R0_DOCUMENTED:
         R0forms += ['single', 'single']
+    if sim in simrun.ONE_SHOT_R0:
+        R0forms += ['iter', 'generator']      # 'iterable of nodes': a one-shot iterator is consumed exactly once by these two
     case['R0form'] = draw(st.sampled_from(R0forms))
     case['positional'] = draw(st.booleans()) and sim in POSITIONAL
     N = len(nodes)
@@ -184,7 +190,7 @@ def ic_case(draw):
     return case
 
 
-ORDERED = {'list', 'tuple', 'range', 'array', 'single', 'dictkeys'}
+ORDERED = {'list', 'tuple', 'range', 'array', 'single', 'dictkeys', 'iter', 'generator'}
 
 
 def prop_ic(case):
